@@ -16,6 +16,8 @@ package copyh
 
 import (
 	"bytes"
+	"crypto/sha256"
+	"hash"
 	"context"
 	"encoding/json"
 	"errors"
@@ -108,6 +110,7 @@ type rec struct {
 	toks   []string
 	idx    map[dkeyT]int
 	quiet  atomic.Bool // prologue of Copy (MapRoot / platform selection): not part of the copy trace
+	servedBad []int     // nodes for which the bytes that arrived at a successful dst.Push differ from the generator's (Model/CopyBytes.v's [served])
 	refs   []string    // the reference strings given to dst.Tag / dst.PushReference
 	pro    []int       // nodes read from the source in Copy's prologue (resolveRoot's FetchReference, MapRoot /
 	// platform selection): outside the transition system, but inside "one copy call" for C04's counters
@@ -395,6 +398,8 @@ func (d *dstW) push(ctx context.Context, t ocispec.Descriptor, rd io.Reader, ref
 	// "x" = the content was already there (ErrAlreadyExists, or an idempotent success as registries
 	// answer); "k" = this push stored it
 	had, _ := d.under.Exists(ctx, t)
+	hr := &hashingReader{r: rd, h: sha256.New()}
+	rd = hr
 	var err error
 	if rp, ok := d.under.(registry.ReferencePusher); ok && ref != "" {
 		err = rp.PushReference(ctx, t, rd, ref)
@@ -406,6 +411,11 @@ func (d *dstW) push(ctx context.Context, t ocispec.Descriptor, rd io.Reader, ref
 		res = "x"
 	} else if err != nil {
 		res = "e"
+	}
+	if res == "k" && n >= 0 && !bytes.Equal(hr.h.Sum(nil), sumOf(d.r.bytes[n])) {
+		d.r.mu.Lock()
+		d.r.servedBad = append(d.r.servedBad, n)
+		d.r.mu.Unlock()
 	}
 	if _, ok := d.under.(registry.ReferencePusher); !ok && ref != "" && res != "e" {
 		if terr := d.under.Tag(ctx, t, ref); terr != nil {
@@ -520,6 +530,20 @@ func (d dstWRefMount) Mount(ctx context.Context, t ocispec.Descriptor, fromRepo 
 	return d.mount(ctx, t, fromRepo, getContent)
 }
 
+// hashingReader hashes what the destination reads from the reader it was given.
+type hashingReader struct {
+	r io.Reader
+	h hash.Hash
+}
+
+func (x *hashingReader) Read(p []byte) (int, error) {
+	n, err := x.r.Read(p)
+	x.h.Write(p[:n])
+	return n, err
+}
+
+func sumOf(b []byte) []byte { s := sha256.Sum256(b); return s[:] }
+
 // dstWRef additionally implements registry.ReferencePusher (push + tag in one call).
 type dstWRef struct{ *dstW }
 
@@ -572,6 +596,7 @@ type Result struct {
 	DstMax   int
 	Widths, Taken []int // controlled schedule: number of parked operations at each step, and the choice made
 	ExtraTag bool  // the source reference also resolves in the destination although a different destination reference was given
+	ServedBad []int   // successful pushes whose bytes were not the generator's
 	Refs     []string // reference strings given to dst.Tag / dst.PushReference
 	Pro      []int // nodes read from the source in the prologue
 	Keff     int
@@ -982,6 +1007,7 @@ func Execute(c *Case) *Result {
 	res.Toks = r.toks
 	res.Pro = r.pro
 	res.Refs = r.refs
+	res.ServedBad = r.servedBad
 	if r.sched != nil {
 		res.Widths, res.Taken = r.sched.widths, r.sched.taken
 	}
